@@ -74,6 +74,14 @@ Theorem C11_poly_columns_unit_length : forall xs degree k d, nz xs degree -> (k 
   let st := train xs (S degree) in (d * d = nth k (snd st) 0)%Qc ->
   sumq (map (fun x => (evalP (fst st) (snd st) k x / d) * (evalP (fst st) (snd st) k x / d))%Qc xs) = 1%Qc.
 Proof. exact fitted_columns_unit_length. Qed.
+(* ... hence the explicit inverse: X = [1 | P_1/d_1 .. P_degree/d_degree] with d_k^2 = norms2_k has X^T X = diag(n, 1, .., 1), so the coefficient
+   matrix diag(1/n, 1, .., 1) X^T is the inverse of [1 | coding] *)
+Theorem C11_poly_coefficients_are_inverse : forall xs degree (d : nat -> Qc) j k, nz xs degree -> (j <= degree)%nat -> (k <= degree)%nat ->
+  let st := train xs (S degree) in
+  d 0%nat = 1%Qc -> (forall i, (1 <= i <= degree)%nat -> (d i * d i = nth i (snd st) 0)%Qc) ->
+  sumq (map (fun x => (evalP (fst st) (snd st) j x / d j) * (evalP (fst st) (snd st) k x / d k))%Qc xs)
+  = if Nat.eqb j k then (if Nat.eqb j 0 then sumq (map (fun _ => 1%Qc) xs) else 1%Qc) else 0%Qc.
+Proof. exact fitted_gram_full. Qed.
 Theorem C11_poly_columns_monic : forall xs k, exists c, length c = k /\ forall x, P xs k x = (qpow x k + peval c x)%Qc.
 Proof. intros xs k. exact (proj1 (P_monic xs k)). Qed.
 
@@ -101,5 +109,6 @@ Print Assumptions C11_encoding_is_row_selection.
 Print Assumptions C11_poly_columns_orthogonal.
 Print Assumptions C11_poly_columns_sum_to_zero.
 Print Assumptions C11_poly_columns_unit_length.
+Print Assumptions C11_poly_coefficients_are_inverse.
 Print Assumptions C11_poly_columns_monic.
 Print Assumptions C11_example.
